@@ -278,6 +278,58 @@ def w_processor(task):
         if len(inputs) <= 8:
             res[name + "_ssa"] = _plain_path(pb.optimize_optimal(inputs, output, sd, use_ssa=True, **kw))
             res[name] = _plain_path(pb.optimize_optimal(inputs, output, sd, **kw))
+    # the inputs / output in the numbering of self.indmap (first appearance) for the model's cp_init
+    im = cp.indmap
+    res["ix_inputs"] = [[int(im[ix]) for ix in t] for t in inputs]
+    res["ix_output"] = [int(im[ix]) for ix in output]
+    # optimal pipeline: simplify; per component the DP's contractions (re-assembled into the tree
+    # over the positions of `where` that the bit path describes); leftovers by size
+    if len(inputs) <= 8:
+        n_o = len(orders)
+        cp3 = Rec(inputs, output, sd)
+        simp3 = bool(task.get("simplify_first", True))
+        if simp3:
+            cp3.simplify()
+        groups = cp3.subgraphs()
+        n0, ssa0 = len(cp3.ssa_path), cp3.ssa
+        cp3.optimize_optimal(search_outer=bool(task.get("search_outer")))
+        steps = [tuple(int(x) for x in st) for st in cp3.ssa_path[n0:]]
+        comps, pos, nxt = [], 0, ssa0
+        for where in groups:
+            trees = {int(node): int(p) for p, node in enumerate(where)}
+            root = trees[int(where[0])] if len(where) == 1 else None
+            for (i, j) in steps[pos: pos + len(where) - 1]:
+                root = trees[nxt] = (trees.pop(i), trees.pop(j))
+                nxt += 1
+            pos += len(where) - 1
+            comps.append([[int(x) for x in where], root])
+        cp3.optimize_remaining_by_size()
+        res["opt_comps"] = comps
+        res["opt_orders"] = orders[n_o:]
+        res["opt_simplified"] = simp3
+        res["opt_full_ssa"] = _plain_path(cp3.ssa_path)
+        res["opt_steps_consumed"] = pos == len(steps)
+    return res
+
+
+def w_random(task):
+    """RandomOptimizer with its random numbers recorded"""
+    from cotengra.pathfinders.path_random import RandomOptimizer
+    inputs, output, sd = task["inputs"], task["output"], task["size_dict"]
+    draws = []
+
+    class RecRng(random.Random):
+        def randint(self, a, b):
+            v = random.Random.randint(self, a, b)
+            draws.append((int(a), int(b), int(v)))
+            return v
+
+    opt = RandomOptimizer(seed=RecRng(task["seed"]))
+    path = opt(inputs, output, sd)
+    res = {"path": _plain_path(path), "draws": draws}
+    tree = RandomOptimizer(seed=task["seed"]).search(inputs, output, sd)
+    res["tree"] = _tree_obs(tree)
+    res["tree_path"] = _plain_path(tree.get_path())
     return res
 
 
@@ -362,7 +414,7 @@ def w_builder(task):
 
 
 WORKER_FNS = {"preset": w_preset, "hyper": w_hyper, "trial": w_trial, "space": w_space, "rgreedy": w_rgreedy,
-              "explicit": w_explicit, "processor": w_processor, "builder": w_builder}
+              "explicit": w_explicit, "processor": w_processor, "builder": w_builder, "random": w_random}
 
 
 def _worker_main(conn):
@@ -834,6 +886,10 @@ def _run(ctx, rng, pool, J):
         net = draw_net(rng, ctx, small=rng.random() < 0.7)
         add("rgreedy", net, "RandomGreedyOptimizer", repeats=rng.randint(1, 6), simplify=rng.random() < 0.8)
 
+    for i in range(ctx.n(40, 600)):
+        net = draw_net(rng, ctx, small=rng.random() < 0.8)
+        add("random", net, "RandomOptimizer")
+
     # ---- 4. explicit paths ----------------------------------------------------------------
     for i in range(ctx.n(120, 1500)):
         net = draw_net(rng, ctx, small=True)
@@ -852,7 +908,8 @@ def _run(ctx, rng, pool, J):
     # ---- 5. deterministic processor parts ---------------------------------------------------
     for i in range(ctx.n(150, 2500)):
         net = draw_net(rng, ctx, small=rng.random() < 0.85)
-        add("processor", net, "ContractionProcessor", greedy=True, simplify_first=rng.random() < 0.7)
+        add("processor", net, "ContractionProcessor", greedy=True, simplify_first=rng.random() < 0.7,
+            search_outer=rng.random() < 0.3)
 
     # ---- 6. partition builders with recorded partitions ------------------------------------------
     for i in range(ctx.n(60, 800)):
@@ -921,6 +978,16 @@ def _run(ctx, rng, pool, J):
             judge_explicit(ctx, J, what, rec, net, o)
         if kind == "processor":
             judge_processor(ctx, J, what, rec, net, o)
+        if kind == "random":
+            J.path(what, rec, n, o["path"])
+            J.tree(what, rec, o["tree"])
+            J.path(what + " tree.get_path()", rec, n, o["tree_path"])
+            J.model("RandomOptimizer.__call__ replayed with its recorded random numbers",
+                    "random_optimizer_path %d %s" % (n, coq([v for _, _, v in o["draws"]])), "(Some %s)" % path_lit(o["path"]),
+                    dict(rec, draws=o["draws"], impl=o["path"]))
+            if any(not (a == 0 and a <= v <= b) for a, b, v in o["draws"]):
+                ctx.fail("RandomOptimizer drew outside randint(0, Nrem)", dict(rec, draws=o["draws"]), found_input=False)
+            ctx.count("random_optimizer_replayed")
         if kind == "builder":
             judge_builder(ctx, J, what, rec, net, o, confirm)
 
@@ -1045,11 +1112,22 @@ def legs_lit(legs):
 
 
 def cp_lit(o):
+    """the model's own __init__ (proved well formed) on the indmap-numbered network"""
     from vlib.core import Z
+    return "(cp_init %s %s %s)" % (coq([list(t) for t in o["ix_inputs"]]), coq(list(o["ix_output"])),
+                                    coq([Z(s) for s in o["sizes"]]))
+
+
+def cp_real_fields(o):
     nodes = "[" + "; ".join("(%d, %s)" % (i, legs_lit(l)) for i, l in o["init_nodes"]) + "]"
     edges = "[" + "; ".join("(%d, %s)" % (ix, coq(list(ns))) for ix, ns in o["init_edges"]) + "]"
-    return "(mkCP %s %s %s %s %d [] true)" % (nodes, edges, coq(list(o["appearances"])), coq([Z(s) for s in o["sizes"]]),
-                                              len(o["init_nodes"]))
+    return "(%s, (%s, %s))" % (nodes, edges, coq(list(o["appearances"])))
+
+
+def nested_pos_lit(t):
+    if isinstance(t, int):
+        return "(Leaf %d)" % t
+    return "(Node %s %s)" % (nested_pos_lit(t[0]), nested_pos_lit(t[1]))
 
 
 def orders_lit(orders):
@@ -1060,6 +1138,24 @@ def judge_processor(ctx, J, what, rec, net, o):
     n = len(net[0])
     cp = cp_lit(o)
     ords = orders_lit(o["orders"])
+    J.model("ContractionProcessor.__init__: nodes, edges, appearances", "let c := %s in (cp_nodes c, (cp_edges c, cp_app c))" % cp,
+            cp_real_fields(o), dict(rec, ix_inputs=o["ix_inputs"], ix_output=o["ix_output"]))
+    for rnd in o["orders"] + o["rem_orders"] + o.get("opt_orders", []):
+        if len({tuple(k) for k in rnd}) != len(rnd):      # hypothesis orders_ok of the pipeline theorems
+            ctx.fail("the recorded iteration of the `hadamards` set repeats a key", dict(rec, order=rnd), found_input=False)
+    if "opt_comps" in o:
+        comps = "[" + "; ".join("(%s, %s)" % (coq(list(wh)), nested_pos_lit(t)) for wh, t in o["opt_comps"]) + "]"
+        base = ("cp_simplify %s %s" % (orders_lit(o["opt_orders"]), cp)) if o["opt_simplified"] else cp
+        J.model("(simplify +) optimize_optimal replayed from the DP's trees + optimize_remaining_by_size: ssa_path, ok, one node; "
+                "hypothesis comps_ok (each tree covers the positions of its component)",
+                "let c := cp_remaining (cp_optimal %s (%s)) in (cp_path c, (cp_ok c, (length (cp_nodes c), "
+                "forallb (fun wt => perm_seq_b (leaves (snd wt)) (length (fst wt))) %s)))" % (comps, base, comps),
+                "(%s, (true, (1, true)))" % path_lit(o["opt_full_ssa"]),
+                dict(rec, impl=o["opt_full_ssa"], comps=o["opt_comps"], orders=o["opt_orders"]))
+        J.path("%s optimal pipeline ssa" % what, rec, n, o["opt_full_ssa"], ssa=True)
+        if not o["opt_steps_consumed"]:
+            ctx.fail("optimize_optimal made a number of contractions that is not sum(len(component) - 1)", dict(rec), found_input=False)
+        ctx.count("optimal_pipeline_replayed")
     nodes_want = "[" + "; ".join("(%d, %s)" % (i, legs_lit(l)) for i, l in o["simp_nodes"]) + "]"
     J.model("ContractionProcessor.simplify: ssa_path and nodes",
             "let c := cp_simplify %s %s in (cp_path c, cp_nodes c)" % (ords, cp),
